@@ -8,8 +8,9 @@ sys.path.insert(0, HERE)
 
 ID = 'C14'
 LEVEL = 'proof'
-SIDECARS = ['compilers']
-FUNCTIONS = ['src.compilers.base.BaseCompiler.analyze_compiler_output',
+SIDECARS = ['compilers', 'utils_io']
+FUNCTIONS = ['src.utils.path2set',
+             'src.compilers.base.BaseCompiler.analyze_compiler_output',
              'src.compilers.groovy.GroovyCompiler.analyze_compiler_output'] + [
     'src.compilers.%s.%sCompiler.%s' % (m, c, f)
     for m, c in (('java', 'Java'), ('kotlin', 'Kotlin'), ('groovy', 'Groovy'), ('scala', 'Scala'))
@@ -28,7 +29,16 @@ NOT_UNDER_CONTRACT = ['the regular expressions ERROR_REGEX / CRASH_REGEX themsel
 
 from props import C14_bounded as _b     # noqa: E402
 replay_search = _b.replay_search
-replay = _b.replay
+
+
+def replay(payload):
+    fi = payload.get('failing_input') or {}
+    if str(fi.get('check', '')).startswith('bounded[patterns-file'):
+        n, out = _patterns_file_check()
+        for v in out:
+            print('%s: lines %r -> %r, expected %r' % (v['check'], v.get('lines'), v.get('actual'), v.get('expected')))
+        return not out
+    return _b.replay(payload)
 
 # Removed check (DESIGN.md 10.4): the harness renders dotty's title line with `max(0, 80 - len(prefix))` dashes; whether
 # real scalac prints a title without any dash when the prefix fills the page width cannot be validated in this sandbox
@@ -36,8 +46,50 @@ replay = _b.replay
 UNVALIDATED_GRAMMAR = ('title-fills-page-width',)
 
 
+PATTERN_FILES = [
+    ['.*error: incompatible types.*'], ['a b', '  leading and trailing  ', 'tab\tinside'], ['one', 'two', 'one'],
+    ['', 'x', ''], [], ['.*Unresolved reference: (foo|bar).*', 'warning: \\[unchecked\\] .*'],
+]
+
+
+def _patterns_file_check():
+    """bounded: the real utils.path2set on pattern files (patterns with blanks, duplicates, empty lines, no final newline,
+    missing file) must return exactly the set of stripped lines -- the patterns analyze_compiler_output then deletes"""
+    import tempfile
+    for m in [k for k in sys.modules if k == 'src' or k.startswith('src.')]:
+        del sys.modules[m]
+    if REPO not in sys.path:
+        sys.path.insert(0, REPO)
+    from src import utils
+    out, n = [], 0
+    d = tempfile.mkdtemp(prefix='c14pat_')
+    try:
+        for i, lines in enumerate(PATTERN_FILES):
+            for final_newline in (True, False):
+                path = os.path.join(d, 'p%d_%d.txt' % (i, final_newline))
+                with open(path, 'w') as f:
+                    f.write('\n'.join(lines) + ('\n' if final_newline and lines else ''))
+                n += 1
+                got = utils.path2set(path)
+                exp = {x.strip() for x in lines} if lines else set()
+                if got != exp and not any(v['check'] == 'bounded[patterns-file]' for v in out):
+                    out.append(dict(check='bounded[patterns-file]', function='src.utils.path2set', lines=lines,
+                                    final_newline=final_newline, expected=sorted(exp), actual=sorted(map(str, got))))
+        n += 1
+        if utils.path2set(os.path.join(d, 'missing.txt')) != set():
+            out.append(dict(check='bounded[patterns-file:missing]', function='src.utils.path2set', lines=None,
+                            expected=[], actual='non-empty'))
+    finally:
+        import shutil
+        shutil.rmtree(d, ignore_errors=True)
+    return n, out
+
+
 def bounded(tier, seed, stop_first=False):
     r = _b.bounded(tier, seed, stop_first)
+    n, extra = _patterns_file_check()
+    r['evaluations'] = r.get('evaluations', 0) + n
+    r.setdefault('violations', []).extend(extra)
     dropped = [v for v in r.get('violations', []) if any(t in v.get('check', '') for t in UNVALIDATED_GRAMMAR)]
     r['violations'] = [v for v in r.get('violations', []) if v not in dropped]
     r['not_judged'] = ['%s (grammar of this output shape is not validated)' % v['check'] for v in dropped]
